@@ -43,8 +43,14 @@ impl ProcOut {
     }
 }
 
+thread_local! {
+    /// multiplier of every wall-clock limit on this thread (raised for the second opinion on a timeout)
+    static TIMEOUT_SCALE: std::cell::Cell<u64> = const { std::cell::Cell::new(1) };
+}
+
 /// Run the ldpc-toolbox binary (or any program) under a wall-clock limit, RLIMIT_FSIZE and RLIMIT_AS.
 pub fn run_prog(prog: &Path, args: &[String], cwd: &Path, timeout_s: u64) -> ProcOut {
+    let timeout_s = timeout_s * TIMEOUT_SCALE.with(|c| c.get());
     let mut cmd = std::process::Command::new(prog);
     cmd.args(args)
         .current_dir(cwd)
@@ -327,8 +333,19 @@ fn own_puncture_bytes(cw: &[u8], pat: &[bool]) -> Vec<u8> {
 pub fn eval(case: &CliCase, stats: &mut Counters) -> Option<Violation> {
     let bin = bin_path();
     let dir = scratch();
-    let r = eval_in(case, stats, &bin, &dir);
+    let mut r = eval_in(case, stats, &bin, &dir);
     let _ = std::fs::remove_dir_all(&dir);
+    if r.as_ref().is_some_and(|v| v.kind == "timeout" || v.detail.contains("wall-clock limit")) {
+        // A wall-clock limit says "slow", which on a loaded machine is not "hangs". Second
+        // opinion with every limit 15 times longer; only a case that still does not end is reported.
+        stats.inc("wall-clock limit hit once; case re-evaluated with 15x limits");
+        let dir = scratch();
+        TIMEOUT_SCALE.with(|c| c.set(15));
+        let mut s2 = Counters::default();
+        r = eval_in(case, &mut s2, &bin, &dir);
+        TIMEOUT_SCALE.with(|c| c.set(1));
+        let _ = std::fs::remove_dir_all(&dir);
+    }
     r
 }
 
@@ -609,7 +626,7 @@ fn eval_in(case: &CliCase, stats: &mut Counters, bin: &Path, dir: &Path) -> Opti
                     }))
                 }
             };
-            let out = run_prog(bin, &args, dir, 20);
+            let out = run_prog(bin, &args, dir, 60);
             if let Some(w) = writer {
                 // the tool has exited: open the read side ourselves (non-blocking) so that a writer
                 // still blocked in open() or write() gets through, whatever the tool did
@@ -756,7 +773,10 @@ fn eval_in(case: &CliCase, stats: &mut Counters, bin: &Path, dir: &Path) -> Opti
                 // block sizes that do not fit: the subcommand must end with an error, not hang or panic
                 stats.inc("faults_fired/ber with a block size that does not fit the codeword");
                 let sim: Value = out.stderr.lines().find_map(|l| l.strip_prefix("SIMRESULT ")).and_then(|j| serde_json::from_str(j).ok()).unwrap_or(Value::Null);
-                if out.timed_out || sim.is_null() {
+                if out.timed_out {
+                    return Some(Violation::new("timeout", format!("ber {:?}: the simulated run did not finish within the wall-clock limit", args)));
+                }
+                if sim.is_null() {
                     return Some(Violation::new("ber-crash", format!("ber {:?}: child ended without a result ({})", args, out.status)));
                 }
                 return match sim["kind"].as_str() {
@@ -1215,7 +1235,10 @@ fn gen_sampled(seed: u64, i: u64) -> CliCase {
                     return CliCase::EncodeSim { alist: m.to_alist(), punct, input, seed: g.next() };
                 }
             }
-            let fifo_chunks = if g.chance(1, 3) { Some((0..4).map(|_| 1 + g.below(k as u64 + 2) as usize).collect()) } else { None };
+            // (for long inputs the chunks are scaled so that the feeder needs at most ~2000 writes;
+            // tiny chunks on long inputs are covered in-process by the simfs cases)
+            let unit = (input.len() / 2000).max(1);
+            let fifo_chunks = if g.chance(1, 3) { Some((0..4).map(|_| unit * (1 + g.below(k as u64 + 2) as usize) + if unit > 1 { g.below(k as u64 + 1) as usize } else { 0 }).collect()) } else { None };
             CliCase::Encode { alist: m.to_alist(), punct, input, fifo_chunks }
         }
         5 => {
@@ -1538,8 +1561,8 @@ pub fn main(opts: &Opts) -> ! {
     extra.insert("sim_time_s".into(), json!(a.counters.get("ber_sim_time_ms") as f64 * 1e-3));
     extra.insert("runs_per_hour".into(), json!((done.len() as f64 / t0.elapsed().as_secs_f64() * 3600.0) as u64));
     extra.insert("components".into(), json!({
-        "real": ["the ldpc-toolbox binary built from the working tree (all subcommands but ber run as child processes)", "cli::ber::Args::run + Progress thread + BerTest with real decoders, in-process under dstsim", "real files, FIFOs"],
-        "stub": ["for ber only: threads, channels, clock, RNG source, CPU count, ctrlc (dstsim)", "mackay-neal --search runs on the real rayon pool (winner not controlled; the oracle does not depend on it)"],
+        "real": ["the ldpc-toolbox binary built from the working tree (all subcommands but ber run as child processes)", "cli::ber::Args::run + Progress thread + BerTest with real decoders, in-process under dstsim", "real files, FIFOs", "cli::encode::Args::run in-process on real files behind the fault-injecting file layer"],
+        "stub": ["for ber only: threads, channels, clock, RNG source, CPU count, ctrlc (dstsim)", "mackay-neal --search runs on the real rayon pool (winner not controlled; the oracle does not depend on it)", "simfs: the outcome of individual read/write/open calls of encode and ber (short, EINTR, EIO, ENOSPC) is decided by the plan, the bytes come from / go to real files"],
     }));
     Evidence {
         property_id: "C20".into(),
@@ -1553,7 +1576,7 @@ pub fn main(opts: &Opts) -> ! {
         extra,
         assumptions: vec![
             "excluded degenerate arguments: encode with a square H (k = 0, never terminates by design of read_exact on empty words) and ber --step-ebn0 0".into(),
-            "ENOSPC/EIO on write are not injected (no seam below std::fs)".into(),
+            "file faults below std::fs (EINTR, short transfers, EIO, ENOSPC, EACCES) are injected for encode and ber only, where hooks H3/H7 route std::fs through the seam; the other subcommands and the C constructors see real files with injected shapes".into(),
             "every child runs under a wall-clock limit, RLIMIT_FSIZE and RLIMIT_AS; hitting one is reported".into(),
         ],
         wall_s: t0.elapsed().as_secs_f64(),
